@@ -13,7 +13,11 @@ package main
 //	I trace <kind> <n> <fault> <init-snap> <ret> <hook>=<snap> ...     -> ok <#events>
 //	I crashat <kind> <n> <init-snap> <k>                               -> <snap> | done
 //	O safe <n> <snap>                                                  -> true
-//	O trace fromcache <n> none <snap> <ret>                            -> ok 0
+//	O fromcache <n> <snap>                                             -> avail | err
+//	I trace fromcache <n> none <snap> <ret> [<hook>=<snap>]            -> ok <#events>
+//	I trace2 <n> <reader-kind> <init-snap> <role>:<hook>=<snap> ... <role>:ret:<r>=<snap>
+//	                                                                   -> ok <#events>
+//	  (a two-thread history under a forced schedule, see c16ILChild)
 //
 // Snapshot text: d<D>,m<M>,z<Z>,t<T>,l<L>,f<F>,u<U> (see c16Snapshot).
 
@@ -34,7 +38,9 @@ import (
 	"os/signal"
 	"path"
 	"path/filepath"
+	"runtime"
 	"sort"
+	"strconv"
 	"strings"
 	"sync"
 	"syscall"
@@ -439,6 +445,8 @@ type c16Spec struct {
 	GateMs      int    `json:",omitempty"`
 	// ModsFile optionally holds the encoded module set of Seed (see c16EncodeMods).
 	ModsFile string `json:",omitempty"`
+	// IL, when set, makes the worker run the controlled-interleaving stage (see c16ILChild).
+	IL *c16ILSpec `json:",omitempty"`
 }
 
 type c16Result struct {
@@ -450,6 +458,9 @@ type c16Result struct {
 	Verdict  string // "equal" or the first difference
 	ErrText  string // diagnostics only; never part of a protocol line
 	Pre      string // traced sequential runs: snapshot taken right before the job
+	// Events: traced sequential runs: the hook points THIS job passed (a FetchFromCache
+	// passes downloaddir.between-stats when the directory exists).
+	Events []c16Event `json:",omitempty"`
 }
 
 type c16Event struct {
@@ -573,6 +584,10 @@ func c16Child(c *Cfg) {
 	if mods == nil {
 		mods = c16Modules(spec.Seed)
 	}
+	if spec.IL != nil {
+		c16ILChild(&spec, mods)
+		return
+	}
 	reg, err := ociclient.New(spec.Host, &ociclient.Options{
 		Insecure:  true,
 		Transport: &c16Transport{id: spec.WorkerID, base: http.DefaultTransport},
@@ -608,10 +623,8 @@ func c16Child(c *Cfg) {
 	if spec.Trace && !tracing {
 		fail("Trace needs sequential jobs with exactly one non-fromcache job")
 	}
-	var tm *c16Mod
-	if tracing {
-		tm = mods[spec.Jobs[traced].Mod]
-	}
+	jobEvents := make([][]c16Event, len(spec.Jobs))
+	curJob := -1 // tracing runs are sequential: the job whose hooks are being recorded
 	if tracing || spec.PauseAt != "" {
 		var mu sync.Mutex
 		seen := map[string]int{}
@@ -619,8 +632,8 @@ func c16Child(c *Cfg) {
 			mu.Lock()
 			seen[name]++
 			nth := seen[name]
-			if tracing {
-				out.Events = append(out.Events, c16Event{name, c16Snapshot(spec.CacheDir, tm)})
+			if tracing && curJob >= 0 {
+				jobEvents[curJob] = append(jobEvents[curJob], c16Event{name, c16Snapshot(spec.CacheDir, mods[spec.Jobs[curJob].Mod])})
 			}
 			mu.Unlock()
 			if spec.PauseAt != "" && name == spec.PauseAt && nth == spec.PauseNth {
@@ -663,10 +676,18 @@ func c16Child(c *Cfg) {
 			if i == traced {
 				out.Init = res.Pre
 			}
+			curJob = i
 		}
 		defer func() {
 			if e := recover(); e != nil {
 				res.Ok, res.Err, res.ErrText = false, "panic", fmt.Sprint(e)
+			}
+			if tracing {
+				curJob = -1
+				res.Events = jobEvents[i]
+				if i == traced {
+					out.Events = append(out.Events, jobEvents[i]...)
+				}
 			}
 			out.Results[i] = res
 		}()
@@ -1052,14 +1073,24 @@ func (b *c16Buf) Safe(n int, snap string, replay any) {
 }
 
 // FromCache emits the quiescent-state observation of FetchFromCache (deduplicated).
-func (b *c16Buf) FromCache(n int, snap, ret string) {
+func (b *c16Buf) FromCache(n int, snap, ret string, events []c16Event) {
 	b.add(func(p *c16Parent) {
 		line := fmt.Sprintf("trace fromcache %d none %s %s", n, snap, ret)
+		for _, e := range events {
+			line += " " + e.Hook + "=" + e.Snap
+		}
 		if p.fcSeen[line] {
 			return
 		}
 		p.fcSeen[line] = true
-		p.c.Op("O", line, "ok 0")
+		// the observable (served or not) is property-level; the hook events only tie the model
+		if key := fmt.Sprintf("fromcache %d %s", n, snap); !p.fcSeen[key] {
+			p.fcSeen[key] = true
+			p.c.Op("O", key, ret)
+		}
+		if !p.c.Focus {
+			p.c.Op("I", line, fmt.Sprintf("ok %d", len(events)))
+		}
 		p.c.Count("fromcache-ops")
 	})
 }
@@ -1253,7 +1284,7 @@ func (cs *c16Case) traced(kind string, m *c16Mod, tag string, fault string, fcBe
 		tr.Res = rs[ti]
 		if fcBefore {
 			tr.Before = rs[0]
-			cs.buf.FromCache(m.N(), rs[0].Pre, c16Ret("fromcache", rs[0]))
+			cs.buf.FromCache(m.N(), rs[0].Pre, c16Ret("fromcache", rs[0]), rs[0].Events)
 		}
 		f := "none"
 		switch fault {
@@ -1263,13 +1294,13 @@ func (cs *c16Case) traced(kind string, m *c16Mod, tag string, fault string, fcBe
 			f = "copy"
 		}
 		if kind == "fromcache" {
-			cs.buf.FromCache(m.N(), run.Out.Init, c16Ret(kind, tr.Res))
+			cs.buf.FromCache(m.N(), run.Out.Init, c16Ret(kind, tr.Res), run.Out.Events)
 		} else {
 			cs.buf.TraceOp(kind, m.N(), f, run.Out.Init, c16Ret(kind, tr.Res), run.Out.Events, cs.replay)
 		}
 		if fcAfter {
 			tr.After = rs[len(rs)-1]
-			cs.buf.FromCache(m.N(), tr.After.Pre, c16Ret("fromcache", tr.After))
+			cs.buf.FromCache(m.N(), tr.After.Pre, c16Ret("fromcache", tr.After), tr.After.Events)
 		}
 	}
 	if fault != "" && cs.env.srv.faultLeft(w) != 0 {
@@ -1279,6 +1310,15 @@ func (cs *c16Case) traced(kind string, m *c16Mod, tag string, fault string, fcBe
 }
 
 // ---- phases --------------------------------------------------------------------------------
+
+func c16OnlyBetweenStats(evs []c16Event) bool {
+	for _, e := range evs {
+		if e.Hook != "downloaddir.between-stats" {
+			return false
+		}
+	}
+	return true
+}
 
 // P1: clean traces. Returns the number of hook events of the cold fetch / cold modfile.
 func (p *c16Parent) p1Case(env *c16Env, mi int) (*c16Buf, int, int) {
@@ -1308,7 +1348,7 @@ func (p *c16Parent) p1Case(env *c16Env, mi int) (*c16Buf, int, int) {
 	b.Direct(okEq(tr.Res), "clean-fetch-failed", "warm Fetch: "+txt(tr.Res), cs.replay)
 	b.Direct(okEq(tr.After), "not-available-after-fetch", "FetchFromCache (fresh process) after a clean Fetch: "+txt(tr.After), cs.replay)
 	if tr.Run.Out != nil {
-		b.Direct(len(tr.Run.Out.Events) == 0, "warm-fetch-effects", "a Fetch on a warm cache passed hook points", cs.replay)
+		b.Direct(c16OnlyBetweenStats(tr.Run.Out.Events), "warm-fetch-effects", "a Fetch on a warm cache passed hook points other than downloaddir.between-stats", cs.replay)
 	}
 	tr = cs.traced("modfile", m, "modfile-cold-after-fetch", "", false, false)
 	b.Direct(okEq(tr.Res), "clean-modfile-failed", "cold ModFile: "+txt(tr.Res), cs.replay)
@@ -1672,6 +1712,11 @@ func c16ParentMain(c *Cfg) {
 	rP3, rP4, rP6, rP5 := r.Sub(), r.Sub(), r.Sub(), r.Sub()
 	const poolSize = 16
 	nm := len(env.mods)
+	// VERIF_C16_PHASES=P2,P7 (debugging aid) restricts the run to some phases; default: all
+	want := func(ph string) bool {
+		v := os.Getenv("VERIF_C16_PHASES")
+		return v == "" || strings.Contains(","+v+",", ","+ph+",")
+	}
 
 	// P1 (always run: it measures the hook counts; its I ops are dropped in -focus mode).
 	H := make([]int, nm)
@@ -1711,6 +1756,9 @@ func c16ParentMain(c *Cfg) {
 		}
 	}
 	var p2 []p2c
+	if !want("P2") {
+		envs = nil
+	}
 	for _, e := range envs {
 		for mi := 0; mi < nm; mi++ {
 			for k := 1; k <= H[mi]+1; k++ {
@@ -1742,7 +1790,7 @@ func c16ParentMain(c *Cfg) {
 	}
 
 	// P3: double crash.
-	if !c.Focus {
+	if !c.Focus && want("P3") {
 		type pair struct{ mi, k1, k2 int }
 		var pairs []pair
 		for mi := 0; mi < nm; mi++ {
@@ -1755,8 +1803,8 @@ func c16ParentMain(c *Cfg) {
 		if !c.Thorough() {
 			pr := rP3
 			Shuffle(pr, pairs)
-			if len(pairs) > 40 {
-				pairs = pairs[:40]
+			if len(pairs) > 20 {
+				pairs = pairs[:20]
 			}
 			sort.Slice(pairs, func(a, b int) bool {
 				x, y := pairs[a], pairs[b]
@@ -1779,7 +1827,7 @@ func c16ParentMain(c *Cfg) {
 	}
 
 	// P4: registry faults, then clean retry; fault+crash and crash+fault combinations.
-	{
+	if want("P4") {
 		type p4c struct {
 			mi    int
 			kind  string
@@ -1814,8 +1862,37 @@ func c16ParentMain(c *Cfg) {
 		p.flush(bufs)
 	}
 
+	// P7: controlled interleavings of a lock-free reader with a writer.
+	if want("P7") {
+		mis := []int{0}
+		if c.Thorough() {
+			mis = []int{0, 1, 2}
+		}
+		type p7c struct {
+			mi     int
+			reader string
+			crash  int
+		}
+		var cases []p7c
+		for _, mi := range mis {
+			n := env.mods[mi].N()
+			// initial states: empty cache; killed in the middle of the extraction (one file
+			// written, the next created); killed with the complete directory and a stale marker
+			for _, crash := range []int{0, 11, 9 + 2*n} {
+				for _, rd := range []string{"fromcache", "fetch"} {
+					cases = append(cases, p7c{mi, rd, crash})
+				}
+			}
+		}
+		bufs := make([]*c16Buf, len(cases))
+		c16Pool(len(cases), poolSize, func(i int) {
+			bufs[i] = p.p7Case(env, i, cases[i].mi, cases[i].reader, cases[i].crash)
+		})
+		p.flush(bufs)
+	}
+
 	// P6: staggered pairs.
-	{
+	if want("P6") {
 		type p6c struct {
 			mi   int
 			hook string
@@ -1847,7 +1924,7 @@ func c16ParentMain(c *Cfg) {
 	}
 
 	// P5: concurrency rounds.
-	{
+	if want("P5") {
 		rounds := c.Pick(6, 60)
 		if c.Focus && !c.Thorough() {
 			rounds = 12
@@ -1861,4 +1938,611 @@ func c16ParentMain(c *Cfg) {
 		c16Pool(rounds, 4, func(i int) { bufs[i] = p.p5Case(env, i, rs[i]) })
 		p.flush(bufs)
 	}
+}
+
+// ---- P7: controlled interleavings ------------------------------------------------------
+//
+// One child process runs MANY schedules of two threads in-process: a writer W (a cold or
+// recovering Cache.Fetch) and a lock-free reader R (Cache.FetchFromCache, or Cache.Fetch whose
+// fast path is the same two stat calls), each with its own Cache (as two processes would
+// have; flock is per open file description).  verifhook.SetHook turns the hook points into
+// rendezvous: the callback recognises the calling goroutine and parks it at a chosen hook
+// index until the controller releases it.  A schedule (w1, r, w2) is
+//
+//	W runs to its w1-th hook point and parks (w1 = 0: not started yet);
+//	R runs: to completion (r = 0), or to its first hook point (r = 1) and parks;
+//	  W runs on to its w2-th hook point (or to completion) and parks;
+//	  R runs to completion;               <- the property's observable is evaluated HERE
+//	W runs to completion; a fresh FetchFromCache must then serve the complete module.
+//
+// Only one thread runs at any time, so the history is a sequence of hook events with on-disk
+// snapshots; it goes to the model as a `trace2` op.  When R is a Fetch that leaves its fast
+// path (any hook other than downloaddir.between-stats) it will contend for the lock, so
+// from then on both threads run freely ("free"); the recorded history ends there.
+
+type c16ILSpec struct {
+	Mod      int
+	Reader   string // fromcache | fetch
+	Template string // "" = empty cache; else a cache directory to copy for every schedule
+	Races    int    // additional free-running poller rounds
+	// Sweep: with a parked reader try every w2 > w1; otherwise only w2 = w1 and "W to completion"
+	Sweep bool
+}
+
+type c16ILEvent struct {
+	Role string // W | R
+	Hook string // hook name, or ret:avail / ret:err
+	Snap string
+}
+
+type c16ILRun struct {
+	W1, R, W2 int // W2 < 0: W runs to completion in the middle segment
+	Init      string
+	Events    []c16ILEvent
+	Free      bool   // R left its fast path; the tail of the run was not scheduled
+	RRet      string // avail | err
+	RVerdict  string // content check made at the moment R returned (W still parked)
+	RParked   bool   // R reached a hook point (r = 1 only)
+	WRet      string
+	WVerdict  string
+	WHooks    int    // hook points W passed in total
+	WEnded    bool   // W finished before reaching w1 (the schedule does not exist)
+	Final     string // verdict of a fresh FetchFromCache after both finished
+	FinalSnap string
+	Deadlock  string
+}
+
+type c16ILOut struct {
+	Runs      []c16ILRun
+	RacePolls int
+	RaceAvail int
+	RaceBad   []string
+}
+
+func c16Gid() uint64 {
+	var buf [64]byte
+	n := runtime.Stack(buf[:], false)
+	// "goroutine 123 [running]:"
+	f := strings.Fields(string(buf[:n]))
+	if len(f) < 2 {
+		return 0
+	}
+	id, _ := strconv.ParseUint(f[1], 10, 64)
+	return id
+}
+
+type c16ILCtl struct {
+	mu     sync.Mutex
+	dir    string
+	m      *c16Mod
+	role   map[uint64]string
+	count  map[string]int
+	parkAt map[string]int // park the role at this hook index (0 = never)
+	gate   map[string]chan struct{}
+	note   chan string // "W parked", "R done", "free", …
+	events []c16ILEvent
+	free   bool
+	dead   string
+	done   map[string]bool
+}
+
+const c16ILGuard = 90 * time.Second // deadlock guard only; never decides a verdict
+
+func (ct *c16ILCtl) hook(name string) {
+	ct.mu.Lock()
+	role := ct.role[c16Gid()]
+	if role == "" || ct.free {
+		ct.mu.Unlock()
+		return
+	}
+	ct.count[role]++
+	k := ct.count[role]
+	if role == "R" && name != "downloaddir.between-stats" {
+		// the reader left the lock-free fast path: stop scheduling, release everybody
+		ct.free = true
+		for r, g := range ct.gate {
+			close(g)
+			delete(ct.gate, r)
+		}
+		ct.mu.Unlock()
+		ct.note <- "free"
+		return
+	}
+	ct.events = append(ct.events, c16ILEvent{role, name, c16Snapshot(ct.dir, ct.m)})
+	if ct.parkAt[role] != k {
+		ct.mu.Unlock()
+		return
+	}
+	g := make(chan struct{})
+	ct.gate[role] = g
+	ct.mu.Unlock()
+	ct.note <- role + " parked"
+	select {
+	case <-g:
+	case <-time.After(c16ILGuard):
+		ct.mu.Lock()
+		ct.dead = role + " was never released at " + name
+		ct.mu.Unlock()
+	}
+}
+
+// goFree ends the scheduling: nothing is recorded or parked any more, everybody runs.
+func (ct *c16ILCtl) goFree() {
+	ct.mu.Lock()
+	ct.free = true
+	for r, g := range ct.gate {
+		close(g)
+		delete(ct.gate, r)
+	}
+	ct.mu.Unlock()
+}
+
+// release lets a parked role run on, to park again at hook index `next` (0 = never).
+func (ct *c16ILCtl) release(role string, next int) {
+	ct.mu.Lock()
+	ct.parkAt[role] = next
+	if g := ct.gate[role]; g != nil {
+		close(g)
+		delete(ct.gate, role)
+	}
+	ct.mu.Unlock()
+}
+
+// wait blocks until one of the wanted notes arrives ("free" always ends the wait).
+func (ct *c16ILCtl) wait(want ...string) string {
+	for {
+		select {
+		case n := <-ct.note:
+			if n == "free" {
+				return n
+			}
+			for _, w := range want {
+				if n == w {
+					return n
+				}
+			}
+		case <-time.After(c16ILGuard):
+			ct.mu.Lock()
+			ct.dead = "controller waited in vain for " + strings.Join(want, "/")
+			ct.mu.Unlock()
+			return "deadlock"
+		}
+	}
+}
+
+func c16CopyTree(src, dst string) error {
+	return filepath.WalkDir(src, func(p string, d fs.DirEntry, err error) error {
+		if err != nil {
+			return err
+		}
+		rel, _ := filepath.Rel(src, p)
+		to := filepath.Join(dst, rel)
+		if d.IsDir() {
+			return os.MkdirAll(to, 0o777)
+		}
+		data, err := os.ReadFile(p)
+		if err != nil {
+			return err
+		}
+		info, err := d.Info()
+		if err != nil {
+			return err
+		}
+		if err := os.WriteFile(to, data, 0o666); err != nil {
+			return err
+		}
+		return os.Chmod(to, info.Mode().Perm())
+	})
+}
+
+type c16ILThread struct {
+	ret, verdict string
+	loc          module.SourceLoc
+}
+
+func c16ILChild(spec *c16Spec, mods []*c16Mod) {
+	il := spec.IL
+	m := mods[il.Mod]
+	ctx := context.Background()
+	newCache := func(dir string) *modcache.Cache {
+		reg, err := ociclient.New(spec.Host, &ociclient.Options{
+			Insecure:  true,
+			Transport: &c16Transport{id: spec.WorkerID, base: http.DefaultTransport},
+		})
+		if err != nil {
+			fmt.Fprintln(os.Stderr, "C16 worker:", err)
+			os.Exit(3)
+		}
+		c, err := modcache.New(modregistry.NewClient(reg), dir)
+		if err != nil {
+			fmt.Fprintln(os.Stderr, "C16 worker:", err)
+			os.Exit(3)
+		}
+		return c
+	}
+	call := func(c *modcache.Cache, kind string) (t c16ILThread) {
+		defer func() {
+			if e := recover(); e != nil {
+				t.ret, t.verdict = "err", "panic: "+fmt.Sprint(e)
+			}
+		}()
+		var err error
+		if kind == "fetch" {
+			t.loc, err = c.Fetch(ctx, m.MV)
+		} else {
+			t.loc, err = c.FetchFromCache(m.MV)
+		}
+		if err != nil {
+			t.ret, t.verdict = "err", err.Error()
+			return
+		}
+		t.ret = "avail"
+		return
+	}
+	freshDir := func() string {
+		dir, err := os.MkdirTemp(spec.CacheDir, "il-")
+		if err == nil && il.Template != "" {
+			err = c16CopyTree(il.Template, dir)
+		}
+		if err != nil {
+			fmt.Fprintln(os.Stderr, "C16 worker:", err)
+			os.Exit(3)
+		}
+		return dir
+	}
+
+	// one schedule
+	runOne := func(w1, r, w2 int) c16ILRun {
+		dir := freshDir()
+		defer modcache.RemoveAll(dir)
+		run := c16ILRun{W1: w1, R: r, W2: w2, Init: c16Snapshot(dir, m)}
+		ct := &c16ILCtl{dir: dir, m: m, role: map[uint64]string{}, count: map[string]int{},
+			parkAt: map[string]int{}, gate: map[string]chan struct{}{}, note: make(chan string, 16), done: map[string]bool{}}
+		verifhook.SetHook(ct.hook)
+		defer verifhook.SetHook(nil)
+		var wt, rt c16ILThread
+		start := func(role, kind string, res *c16ILThread, park int) {
+			c := newCache(dir)
+			ready := make(chan struct{})
+			go func() {
+				ct.mu.Lock()
+				ct.role[c16Gid()] = role
+				ct.parkAt[role] = park
+				ct.mu.Unlock()
+				close(ready)
+				*res = call(c, kind)
+				ct.mu.Lock()
+				ct.done[role] = true
+				ct.mu.Unlock()
+				ct.note <- role + " done"
+			}()
+			<-ready
+		}
+		wStarted, wDone, rDone := false, false, false
+		free := false
+		retEvent := func(role string, t *c16ILThread) {
+			if t.ret == "avail" {
+				t.verdict = c16CompareLoc(t.loc, m) // evaluated NOW, the other thread still parked
+			}
+			if !free {
+				ct.mu.Lock()
+				ct.events = append(ct.events, c16ILEvent{role, "ret:" + t.ret, c16Snapshot(dir, m)})
+				ct.mu.Unlock()
+			}
+		}
+		// drain waits for both threads once scheduling has ended
+		drain := func() {
+			deadline := time.Now().Add(c16ILGuard)
+			for {
+				ct.mu.Lock()
+				wd, rd := !wStarted || ct.done["W"], ct.done["R"]
+				ct.mu.Unlock()
+				if wd && rd {
+					wDone, rDone = wStarted, true
+					_ = rDone
+					return
+				}
+				if time.Now().After(deadline) {
+					ct.mu.Lock()
+					ct.dead = "threads did not finish after the schedule ended"
+					ct.mu.Unlock()
+					return
+				}
+				select {
+				case <-ct.note:
+				case <-time.After(20 * time.Millisecond):
+				}
+			}
+		}
+		note := func(n string) {
+			switch n {
+			case "W done":
+				wDone = true
+				retEvent("W", &wt)
+			case "R done":
+				rDone = true
+				retEvent("R", &rt)
+			case "free":
+				free = true
+			}
+		}
+		finish := func() c16ILRun {
+			ct.mu.Lock()
+			run.Events, run.Deadlock, run.WHooks = ct.events, ct.dead, ct.count["W"]
+			ct.mu.Unlock()
+			run.Free = free
+			if rt.ret == "avail" && rt.verdict == "" {
+				rt.verdict = c16CompareLoc(rt.loc, m)
+			}
+			if wt.ret == "avail" && wt.verdict == "" {
+				wt.verdict = c16CompareLoc(wt.loc, m)
+			}
+			run.RRet, run.RVerdict, run.WRet, run.WVerdict = rt.ret, rt.verdict, wt.ret, wt.verdict
+			ft := call(newCache(dir), "fromcache")
+			if ft.ret == "avail" {
+				run.Final = c16CompareLoc(ft.loc, m)
+			} else {
+				run.Final = "not available: " + ft.verdict
+			}
+			run.FinalSnap = c16Snapshot(dir, m)
+			return run
+		}
+		// 1. W to w1
+		if w1 > 0 {
+			wStarted = true
+			start("W", "fetch", &wt, w1)
+			n := ct.wait("W parked", "W done")
+			note(n)
+			if n == "W done" {
+				run.WEnded = true
+			}
+			if n == "deadlock" {
+				return finish()
+			}
+		}
+		// 2. R
+		if !run.WEnded {
+			park := 0
+			if r > 0 {
+				park = 1
+			}
+			// A reader Fetch that finds no zip while the writer holds the lock blocks inside
+			// lockVersion without passing a hook point: the schedule ends here by construction.
+			if now := c16Snapshot(dir, m); il.Reader == "fetch" && c16Field(now, 'z') == "-" && c16Field(now, 'l') == "1" {
+				free = true
+				ct.goFree()
+			}
+			start("R", il.Reader, &rt, park)
+			n := "free"
+			if !free {
+				n = ct.wait("R parked", "R done")
+				note(n)
+			}
+			if n == "R parked" {
+				run.RParked = true
+				// 3. W on to w2 (or to completion)
+				if !wStarted && (w2 < 0 || w2 > w1) {
+					wStarted = true
+					next := w2
+					if next < 0 {
+						next = 0
+					}
+					start("W", "fetch", &wt, next)
+					n = ct.wait("W parked", "W done")
+					note(n)
+				} else if wStarted && !wDone && (w2 < 0 || w2 > w1) {
+					next := w2
+					if next < 0 {
+						next = 0
+					}
+					ct.release("W", next)
+					n = ct.wait("W parked", "W done")
+					note(n)
+				}
+				// 4. R to completion
+				if now := c16Snapshot(dir, m); !free && il.Reader == "fetch" && c16Field(now, 'z') == "-" && c16Field(now, 'l') == "1" {
+					// (cannot happen with the unmodified downloadDir: a parked reader has seen the
+					// directory, so the zip exists) the reader would block inside lockVersion
+					free = true
+					ct.goFree()
+					n = "free"
+				}
+				if !free && n != "deadlock" {
+					ct.release("R", 0)
+					n = ct.wait("R done")
+					note(n)
+				}
+			}
+			if free || n == "deadlock" {
+				if free {
+					if !wStarted { // the reader ran into the slow path before the writer existed
+						wStarted = true
+						start("W", "fetch", &wt, 0)
+					}
+					drain()
+				}
+				return finish()
+			}
+		}
+		// 5. W to completion
+		if !wStarted {
+			wStarted = true
+			start("W", "fetch", &wt, 0)
+			note(ct.wait("W done"))
+		} else if !wDone {
+			ct.release("W", 0)
+			note(ct.wait("W done"))
+		}
+		return finish()
+	}
+
+	out := &c16ILOut{}
+	// every w1 (until the writer has no such hook point), r = 0 and r = 1; for r = 1 with a
+	// parked reader every w2 > w1 and "to completion"
+	for w1 := 0; w1 < 200; w1++ {
+		a := runOne(w1, 0, w1)
+		if a.WEnded {
+			break
+		}
+		out.Runs = append(out.Runs, a)
+		b := runOne(w1, 1, w1)
+		if !b.RParked {
+			continue // the reader passes no hook point in this state: same as r = 0
+		}
+		out.Runs = append(out.Runs, b)
+		if !il.Sweep {
+			c := runOne(w1, 1, 199)
+			c.W2 = -1
+			out.Runs = append(out.Runs, c)
+			continue
+		}
+		for w2 := w1 + 1; w2 < 200; w2++ {
+			c := runOne(w1, 1, w2)
+			if c.WHooks < w2 { // W finished before w2: that was the "to completion" run
+				c.W2 = -1
+				out.Runs = append(out.Runs, c)
+				break
+			}
+			out.Runs = append(out.Runs, c)
+		}
+	}
+	// free-running poller: R polls while W runs, W yields at every hook point
+	for i := 0; i < il.Races; i++ {
+		dir := freshDir()
+		verifhook.SetHook(func(string) { time.Sleep(300 * time.Microsecond) })
+		stop := make(chan struct{})
+		polled := make(chan struct{})
+		go func() {
+			defer close(polled)
+			rc := newCache(dir)
+			for {
+				select {
+				case <-stop:
+					return
+				default:
+				}
+				t := call(rc, "fromcache")
+				out.RacePolls++
+				if t.ret == "avail" {
+					out.RaceAvail++
+					if v := c16CompareLoc(t.loc, m); v != "equal" && len(out.RaceBad) < 5 {
+						out.RaceBad = append(out.RaceBad, v)
+					}
+				}
+			}
+		}()
+		wt := call(newCache(dir), "fetch")
+		close(stop)
+		<-polled
+		verifhook.SetHook(nil)
+		if wt.ret != "avail" {
+			out.RaceBad = append(out.RaceBad, "writer failed: "+wt.verdict)
+		} else if v := c16CompareLoc(wt.loc, m); v != "equal" {
+			out.RaceBad = append(out.RaceBad, "writer: "+v)
+		}
+		modcache.RemoveAll(dir)
+	}
+	b, _ := json.Marshal(out)
+	os.Stdout.Write(append(b, '\n'))
+}
+
+// p7Case: one child running every schedule for (module, reader kind, initial state).
+func (p *c16Parent) p7Case(env *c16Env, idx, mi int, reader string, crash int) *c16Buf {
+	m := env.mods[mi]
+	n := m.N()
+	cs := p.newCase(env, fmt.Sprintf("p7-%d", idx), map[string]any{"module": mi, "reader": reader, "initCrashAt": crash})
+	defer cs.close()
+	b := cs.buf
+	b.Count("phase=P7")
+	// the template: a cache left behind by a writer killed at hook `crash`
+	tmpl := ""
+	if crash > 0 {
+		tmpl = filepath.Join(cs.dir, "template")
+		os.MkdirAll(tmpl, 0o777)
+		w := cs.worker("template")
+		sp := cs.spec(w, c16OneJob("fetch", mi), false)
+		sp.CacheDir = tmpl
+		run := p.start(sp, crash).wait()
+		if !run.Killed {
+			b.Direct(false, "crash-not-delivered", fmt.Sprintf("P7 template: fetch child was not killed at hook %d", crash), cs.replay)
+			return b
+		}
+	}
+	work := filepath.Join(cs.dir, "work")
+	os.MkdirAll(work, 0o777)
+	w := cs.worker("interleave")
+	sp := cs.spec(w, nil, false)
+	sp.CacheDir = work
+	// every (w1, w2) pair for the lock-free FetchFromCache and for the empty cache; for a
+	// reader Fetch on a crashed cache only "W stays" and "W finishes" (quick tier)
+	sp.IL = &c16ILSpec{Mod: mi, Reader: reader, Template: tmpl, Races: 2,
+		Sweep: reader == "fromcache" || crash == 0 || p.c.Thorough() || p.c.Focus}
+	proc := p.start(sp, 0)
+	<-proc.done
+	raw := proc.stdout.String()
+	run := proc.wait()
+	if run.Timeout || run.Fail != "" {
+		cs.checkRun(run, "interleave")
+		return b
+	}
+	var out c16ILOut
+	lines := strings.Split(strings.TrimSpace(raw), "\n")
+	if err := json.Unmarshal([]byte(lines[len(lines)-1]), &out); err != nil {
+		b.Direct(false, "child-failed", "P7 child output unreadable: "+c16Clip(raw), cs.replay)
+		return b
+	}
+	b.Count(fmt.Sprintf("p7 schedules reader=%s init-crash=%d: %d", reader, crash, len(out.Runs)))
+	for _, r := range out.Runs {
+		sched := fmt.Sprintf("W to hook %d; R(%s) %s; W to hook %d; R returns; W finishes", r.W1, reader,
+			map[bool]string{false: "runs to completion", true: "parks at its first hook"}[r.R > 0], r.W2)
+		rp := map[string]any{"seed": p.c.Seed, "modseed": env.seed, "case": cs.id, "module": mi, "reader": reader,
+			"initCrashAt": crash, "init": r.Init, "w1": r.W1, "r": r.R, "w2": r.W2, "schedule": sched}
+		var evs []string
+		for _, e := range r.Events {
+			evs = append(evs, e.Role+":"+e.Hook+"="+e.Snap)
+			b.Safe(n, e.Snap, rp)
+		}
+		b.Count("p7-schedules")
+		if r.Free {
+			b.Count("p7-reader-left-fast-path")
+		}
+		if r.RParked {
+			b.Count("p7-reader-parked-between-stats")
+		}
+		if r.RRet == "avail" {
+			b.Count("p7-reader-served")
+		}
+		b.Direct(r.Deadlock == "", "interleave-deadlock", "schedule ["+sched+"]: "+r.Deadlock, rp)
+		// the property's observable: what the reader was handed, at the moment it was handed
+		b.Direct(r.RRet != "avail" || r.RVerdict == "equal", "interleave-served-incomplete",
+			fmt.Sprintf("schedule [%s] from %s: the reader was handed an incomplete directory: %s (history: %s)", sched, r.Init, r.RVerdict, strings.Join(evs, " ")), rp)
+		b.Direct(r.WRet == "avail" && r.WVerdict == "equal", "interleave-writer-failed",
+			fmt.Sprintf("schedule [%s] from %s: the writer's Fetch: %s %s", sched, r.Init, r.WRet, r.WVerdict), rp)
+		if reader == "fetch" {
+			b.Direct(r.RRet == "avail", "interleave-reader-failed",
+				fmt.Sprintf("schedule [%s] from %s: the reader's Fetch failed: %s", sched, r.Init, r.RVerdict), rp)
+		}
+		b.Direct(r.Final == "equal", "interleave-final-wrong",
+			fmt.Sprintf("schedule [%s] from %s: FetchFromCache after both finished: %s (state %s)", sched, r.Init, r.Final, r.FinalSnap), rp)
+		b.Safe(n, r.FinalSnap, rp)
+		line := fmt.Sprintf("trace2 %d %s %s", n, reader, r.Init)
+		if len(evs) > 0 {
+			line += " " + strings.Join(evs, " ")
+		}
+		nev := len(evs)
+		b.add(func(p *c16Parent) {
+			if !p.c.Focus {
+				if !p.fcSeen[line] {
+					p.fcSeen[line] = true
+					p.c.Op("I", line, fmt.Sprintf("ok %d", nev))
+					p.c.Trace()
+				}
+			}
+			p.c.Case(line, nev >= 3)
+		})
+	}
+	b.Count("p7-race-rounds")
+	b.Direct(len(out.RaceBad) == 0, "race-served-incomplete",
+		"free-running FetchFromCache poller during a Fetch: "+strings.Join(out.RaceBad, "; "), cs.replay)
+	return b
 }
